@@ -39,7 +39,13 @@ def run(ctx):
         shutil.copy(os.path.join(core.HARNESS, "mfront", f), inputs)
     shutil.copy(os.path.join(core.HARNESS, "data", "VfYoung.mfront"), inputs)
     mfrontlib.instantiate(os.path.join(core.HARNESS, "mfront/VfProbe.mfront"), os.path.join(inputs, "VfProbe.mfront"), {"SUFFIX": "", "STRAINMEASURE": ""})
+    for f in ("VfRKa.mfront", "VfRKb.mfront"):
+        shutil.copy(os.path.join(core.HARNESS, "mfront", f), inputs)
+    BID = ['--behaviour-dsl-option=build_identifier:"B-1"']
+    # key = (input, interface[, options]); the first four are explored in every history, the others in the invocations on several inputs
     keys = [("VfMP.mfront", "generic"), ("VfMP.mfront", "c"), ("VfYoung.mfront", "c"), ("VfProbe.mfront", "generic")]
+    extra = [("VfRKa.mfront", "generic"), ("VfRKb.mfront", "generic"),
+             ("VfMP.mfront", "generic", BID), ("VfProbe.mfront", "generic", BID), ("VfRKb.mfront", "generic", BID)]
     if ctx.thorough:
         # a sample of the repository's behaviours (copied: inputs must not be read from a path that changes)
         rnd = random.Random(ctx.seed)
@@ -67,7 +73,13 @@ def run(ctx):
             raise Broken("too few repository behaviours accepted by mfront on their own: skipped %s" % skipped)
         ctx.note("repository inputs skipped because mfront rejects them without their companion files: %s" % ", ".join(skipped))
     depth = 3 if len(keys) <= 4 else 2
-    hists = ctx.gen("mfront/MFrontRunGen", env={"NKEYS": str(len(keys)), "DEPTH": str(depth)})
+    nhist = len(keys)              # keys explored by the histories of single runs
+    keys = keys + extra
+    fams = {}
+    for k, key in enumerate(keys, 1):
+        fams.setdefault((key[1], tuple(key[2]) if len(key) > 2 else ()), []).append(k)
+    core.write_ndjson(ctx.path("families.ndjson"), [{"keys": v[:5]} for v in fams.values() if len(v) > 1])
+    hists = ctx.gen("mfront/MFrontRunGen", env={"NKEYS": str(nhist), "DEPTH": str(depth), "FAM": ctx.path("families.ndjson")})
     rnd = random.Random(ctx.seed + 1)
     exe = os.path.join(core.BUILD, "mfront/src/mfront")
     base = core.run_env({"TFEL_VERIF_LOCK_NAME": "/vf-c36-%d" % os.getpid()})
@@ -77,13 +89,20 @@ def run(ctx):
     owned = {}
     events = []
     failures = 0
+    ninv = 0
     # ownership and reference digests: a solo run of each key in a fresh directory, default environment
-    for k, (inp, iface) in enumerate(keys, 1):
+    def argv_of(ks):
+        key = keys[ks[0] - 1]
+        return ["timeout", "120", exe] + SEARCH + (list(key[2]) if len(key) > 2 else []) + ["--interface=" + key[1]] + \
+            [os.path.join("..", "inputs", keys[k - 1][0]) for k in ks]
+
+    for k, key in enumerate(keys, 1):
+        inp, iface = key[0], key[1]
         d = ctx.path("solo%d" % k)
         os.makedirs(d)
         full = dict(os.environ)
         full.update(envs[0])
-        r = subprocess.run(["timeout", "120", exe] + SEARCH + ["--interface=" + iface, os.path.join("..", "inputs", inp)], cwd=d, env=full, stdout=-1, stderr=-2)
+        r = subprocess.run(argv_of([k]), cwd=d, env=full, stdout=-1, stderr=-2)
         if r.returncode != 0:
             raise Broken("solo run of %s/%s failed" % (inp, iface))
         t = digest_tree(d)
@@ -94,24 +113,25 @@ def run(ctx):
         d = ctx.path("h%d" % h["id"])
         os.makedirs(d)
         before = {}
-        for k in h["runs"]:
-            inp, iface = keys[k - 1]
+        for inv in h["runs"]:
             env = rnd.choice(envs)
             full = dict(os.environ)
             full.update(env)
             if env is envs[2]:
                 full = dict(env, PATH=os.environ.get("PATH", ""))   # a nearly empty, reordered environment
-            r = subprocess.run(["timeout", "120", exe] + SEARCH + ["--interface=" + iface, os.path.join("..", "inputs", inp)],
-                               cwd=d, env=full, stdout=-1, stderr=-2)
+            r = subprocess.run(argv_of(inv), cwd=d, env=full, stdout=-1, stderr=-2)
             if r.returncode != 0:
                 failures += 1
                 continue
             after = digest_tree(d)
             changed = {f for f in after if before.get(f) != after[f]}
-            iso = changed <= owned[k]
-            # files written by this key = its owned set; compare their digests
-            dl = sorted("%s=%s" % (f, after.get(f, "missing")) for f in owned[k])
-            events.append({"e": "Run", "k": k, "d": dl, "iso": int(iso), "h": h["id"]})
+            allowed = set().union(*[owned[k] for k in inv])
+            iso = changed <= allowed
+            for k in inv:
+                # files written for this key = its owned set; compare their digests
+                dl = sorted("%s=%s" % (f, after.get(f, "missing")) for f in owned[k])
+                events.append({"e": "Run", "k": k, "d": dl, "iso": int(iso), "h": h["id"], "inv": len(inv)})
+            ninv += len(inv) > 1
             before = after
         shutil.rmtree(d, ignore_errors=True)
     shm = "/dev/shm/sem.vf-c36-%d" % os.getpid()
@@ -124,12 +144,15 @@ def run(ctx):
         pos = v["res"].depth - 1 if v["violated"] else v["maxl"]
         at = events[pos - 1] if 0 < pos <= len(events) else None
         k = keys[at["k"] - 1] if at else None
-        ctx.violation("nondeterministic:%s:%s" % (k or ("?", "?")), "generation of %s differs between histories / environments (event %s)" % (k, json.dumps(at)[:400]),
+        ctx.violation("nondeterministic:%s:%s" % ((k[0], k[1]) if k else ("?", "?")), "generation of %s differs between histories / environments (event %s)" % (k, json.dumps(at)[:400]),
                       {"key": k, "event": at, "trace": v["file"]})
     return finish(ctx, "model_checking", {
         "states": v["res"].distinct, "transitions": v["res"].generated, "traces_validated_against_impl": len(hists),
         "events_validated": len(events), "samples": [dict(e, d=e["d"][:2]) for e in events[:3]],
-        "keys": ["%s/%s" % k for k in keys], "histories": len(hists), "runs": len(events)},
+        "keys": ["/".join([k[0], k[1]] + (list(k[2]) if len(k) > 2 else [])) for k in keys], "histories": len(hists), "runs": len(events),
+        "invocations_on_several_inputs": ninv},
         ["#line directives (documented path-dependent field) are masked before hashing; inputs are always given by the same relative path",
          "the first observation of a key is the reference; environments: default, other TZ / LANG / HOME, nearly empty and reordered",
+         "invocations on several inputs: every ordered pair / triple of the keys that share an interface and options (generic: VfMP, VfProbe, two "
+         "Runge-Kutta behaviours with a static variable in their elastic properties; the same with a build identifier option), alone and followed by a solo run",
          "quick: 4 keys, all histories of length <= 3; thorough adds 12 behaviours of the repository (histories of length <= 2)"])
